@@ -368,7 +368,9 @@ var shapes = []func() any{
 	func() any { return []any{[]any{1}, 2} },
 	func() any { return []any{[]any{[]any{1}}, []any{2}, 3} },
 	func() any { return map[string]any{"a": map[string]any{"b": map[string]any{"c": 1}}, "d": 2} },
-	func() any { return map[string]any{"a": []any{map[string]any{"b": []any{}}}, "c": []any{1, []any{2}, 3}} },
+	func() any {
+		return map[string]any{"a": []any{map[string]any{"b": []any{}}}, "c": []any{1, []any{2}, 3}}
+	},
 	func() any { return []any{map[string]any{"a": 1}, map[string]any{"a": 2}} },
 	func() any { return []any{1, []any{2, []any{3, []any{4, []any{}}}}, 5} },
 	func() any { return map[string]any{"": map[string]any{"": []any{nil}}} },
